@@ -784,7 +784,7 @@ def check_filled_flags(run, rule):
             name = fs[0].split("#")[0][2:]
             if fs[1] in (1, True):
                 raised.add(fs[0])
-            elif fs[1] in (0, False) and fs[0] in tested:
+            elif fs[1] in (0, False) and fs[0] in tested and fs[0] in set(pairing.values()):
                 run.ob(rule, "%s:%s:never-lowered" % (short(fn["qn"]), name), False, fn, fs[2].get("l", 0),
                        "`%s = false`: what was stored before this statement is forgotten - a record whose other fields are absent is dropped "
                        "although the caller gave this one" % name)
